@@ -564,11 +564,14 @@ package plugin
 //@   bounded peer-dead [C03.c] [C18.gor]
 //@   wait send#1 received by Start's select or by the drain goroutine Start$4$1, which Start spawns on every return path once this goroutine exists (obligation (*Client).Start/ensures/C10.drained)
 //@   requires c != nil && c.logger != nil && runner != nil && linesCh != nil && !closed(linesCh)
-//@   modifies heap, wg_count, scan_err, rd_done, hdata, $LOG
+//@   modifies heap, wg_count, scan_err, rd_done, hdata, $LOG, nscan
 //@   after call (runner.Runner).Stdout#1 bind so: Iface := ret
 //@   ensures rd_done[so]   [C10.drain]
 //@   ensures closed(linesCh)   [C10.drain]
 //@   ensures wg_count[c.clientWaitGroup] == old(wg_count)[c.clientWaitGroup] - 1 && wg_count[c.pipesWaitGroup] == old(wg_count)[c.pipesWaitGroup] - 1   [C10.drain]
+//@   local nscan: Int := 0
+//@   at call bufio.NewScanner#1 assert nscan == 0   [C01.first] [C10.first]
+//@   after call bufio.NewScanner#1 set nscan := nscan + 1
 
 //@ func (*Client).Start$4$1
 //@   nopanic [C10.total]
@@ -655,13 +658,19 @@ package plugin
 //@   bounded peer-dead [C09.timer] [C03.c] [C18.gor]
 //@   close_once [C20.close1]
 //@   requires !held(m.Mutex)
-//@   modifies pkey, ch_owner, mapof(m.streams), heap_fresh, tokens, conns_open, firstw
+//@   modifies pkey, ch_owner, mapof(m.streams), heap_fresh, tokens, conns_open, firstw, slot_deleted
 //@   after call (*MuxBroker).getStream#1 assume !closed(ret.doneCh)
 //@   after select#1 set tokens := ite(index == 0, tokens + 1, tokens)
 //@   ensures !held(m.Mutex)   [C09.balance]
 //@   ensures result1 == nil ==> result0 != nil && wtag(result0) == id && firstw[result0] == id   [C06.accept]
 //@   ensures result1 == nil ==> tokens == old(tokens) + 1   [C09.own]
 //@   ensures result1 != nil ==> result0 == nil && tokens == old(tokens)   [C09.own]
+//@   after select#1 bind asel: Int := index
+//@   local slot_deleted: Bool := false
+//@   at call close#1 assert asel == 0   [C09.slot] [C06.slot]
+//@   at call delete#1 assert asel == 1 && arg0 == m.streams && arg1 == id   [C09.slot] [C06.slot]
+//@   after call delete#1 set slot_deleted := true
+//@   ensures asel == 1 ==> slot_deleted && result1 != nil   [C09.slot] [C06.slot]
 
 //@ func (*MuxBroker).Dial
 //@   nopanic [C06.total] [C03.d] [C20.nopanic]
@@ -897,13 +906,17 @@ package plugin
 //@   nopanic [C07.total] [C08.total] [C09.total] [C20.nopanic]
 //@   bounded peer-dead [C09.timer] [C18.gor]
 //@   requires m.streamer != nil && !held(m.Mutex)
-//@   modifies heap, gkey, gch_owner
+//@   modifies heap, gkey, gch_owner, grun_pend
 //@   after call (streamer).Recv#1 bind msg := ret0
 //@   loop#1 invariant !held(m.Mutex)   [C09.balance]
 //@   at call (*GRPCBroker).getServerStream#1 assert arg0 == msg.ServiceId && is_knock(msg)   [C08.run]
 //@   at call (*GRPCBroker).getClientStream#1 assert arg0 == msg.ServiceId && !is_knock(msg)   [C07.file] [C08.run]
 //@   after call (*GRPCBroker).getClientStream#1 bind cps: Ref := ret
 //@   at call (*GRPCBroker).timeoutWait#1 assert !is_knock(msg) && arg0 == m && arg1 == msg.ServiceId && arg2 == cps   [C08.run] [C09.timer]
+//@   local grun_pend: Bool := false
+//@   loop#1 invariant !grun_pend   [C07.file] [C08.run]
+//@   after call (streamer).Recv#1 set grun_pend := ret1 == nil
+//@   after select#1 set grun_pend := false
 
 //@ func (*GRPCBroker).Accept
 //@   nopanic [C07.total] [C08.total] [C03.d] [C20.nopanic]
